@@ -149,3 +149,129 @@ func VerifC01_SyncAdChain() {
 		verif_Assert(v.latest() == latestBefore, "a sync to an explicit head does not change the latest-synced value")
 	}
 }
+
+// specification of one traversal: positions visited from h
+func c01want(chain []cid.Cid, h int, stop cid.Cid, limit int64) []cid.Cid {
+	var want []cid.Cid
+	for i := h; i < len(chain); i++ {
+		if i > h && chain[i] == stop {
+			break
+		}
+		if i > h && limit > 0 && int64(len(want)) >= limit {
+			break
+		}
+		want = append(want, chain[i])
+	}
+	return want
+}
+
+func c01sameLog(got, want []cid.Cid) bool {
+	if len(got) != len(want) {
+		return false
+	}
+	for i := range want {
+		if got[i] != want[i] {
+			return false
+		}
+	}
+	return true
+}
+
+// C01: the announce-triggered path uses the latest sync as stop point, the
+// first-sync depth only when nothing was synced yet, and reports the segment.
+func VerifC01_AnnouncedSync() {
+	n := verif_Choose("chainLen", 1, 3+verif_Tier())
+	chain := c01chain(n)
+	N := int64(n)
+	adsDepth := c01int("adsDepthLimit", -1, N+1)
+	firstDepth := c01int("firstSyncDepth", 0, N+1)
+	subSeg := c01int("segDepthLimit", -1, N+1)
+	withHook := verif_Bool("blockHook")
+	v := newVSub(chain, adsDepth, firstDepth, subSeg, withHook)
+	latestPos := verif_Choose("latestSyncPos", -1, n-1)
+	latestBefore := cid.Undef
+	if latestPos >= 0 {
+		latestBefore = chain[latestPos]
+		verif_Assume(v.s.SetLatestSync(v.peer.ID, latestBefore) == nil)
+	}
+	a := verif_Choose("announcedPos", 0, n-1)
+	hnd := v.s.getOrCreateHandler(v.peer.ID)
+	amsg := announceFor(chain[a], v.peer.ID)
+	hnd.pendingMsg.Store(&amsg)
+	hnd.asyncSyncAdChain(context.Background())
+	verif_Reach("handled")
+	events := v.drain()
+	verif_Assert(hnd.pendingMsg.Load() == nil, "the pending announcement is consumed")
+	if latestBefore == chain[a] {
+		verif_Assert(len(v.log) == 0 && len(v.sy.reqs) == 0 && len(events) == 0 && v.latest() == latestBefore, "announced head equal to the latest sync: nothing to do")
+		return
+	}
+	limit := adsDepth
+	if latestPos < 0 && firstDepth != 0 {
+		limit = firstDepth
+	}
+	if limit < 1 {
+		limit = 0
+	}
+	want := c01want(chain, a, latestBefore, limit)
+	verif_Reach("synced")
+	if withHook {
+		verif_Assert(c01sameLog(v.log, want), "announce-triggered sync reports the blocks from the announced head back to the latest sync, cut at the depth limit")
+	}
+	for _, r := range v.sy.reqs {
+		p := v.sy.pos(r.start)
+		verif_Assert(p >= a && p < a+len(want), "every request starts inside the requested segment")
+		verif_Assert(r.stop == latestBefore, "every request carries the latest sync as stop link")
+	}
+	verif_Assert(len(events) == 1 && events[0].Cid == chain[a] && events[0].Count == len(want) && events[0].Err == nil && events[0].PeerID == v.peer.ID, "exactly one notification with head, publisher and count")
+	verif_Assert(v.latest() == chain[a], "the announced head becomes the latest sync")
+}
+
+// C01: entries-chain variants choose the right selector limit and segmenting.
+func VerifC01_EntriesSync() {
+	n := verif_Choose("chainLen", 1, 3+verif_Tier())
+	chain := c01chain(n)
+	N := int64(n)
+	entDepth := c01int("entriesDepthLimit", -1, N+1)
+	subSeg := c01int("segDepthLimit", -1, N+1)
+	withHook := verif_Bool("blockHook")
+	v := newVSubEnts(chain, 0, 0, subSeg, entDepth, withHook)
+	start := verif_Choose("entriesStartPos", 0, n-1)
+	var err error
+	var want []cid.Cid
+	switch verif_Choose("variant", 0, 2) {
+	case 0:
+		scoped := c01int("scopedDepthLimit", -1, N+1)
+		var opts []SyncOption
+		if scoped != 0 {
+			opts = append(opts, ScopedDepthLimit(scoped))
+		}
+		err = v.s.SyncEntries(context.Background(), v.peer, chain[start], opts...)
+		limit := entDepth
+		if scoped != 0 {
+			limit = scoped
+		}
+		if limit < 1 {
+			limit = 0
+		}
+		want = c01want(chain, start, cid.Undef, limit)
+	case 1:
+		err = v.s.SyncOneEntry(context.Background(), v.peer, chain[start])
+		want = chain[start : start+1]
+		verif_Assert(len(v.sy.reqs) <= 1, "a single-entry sync is one request")
+	case 2:
+		err = v.s.SyncHAMTEntries(context.Background(), v.peer, chain[start])
+		want = chain[start:]
+		verif_Assert(len(v.sy.reqs) <= 1, "an all-links sync is never segmented")
+	}
+	verif_Reach("synced")
+	verif_Assert(err == nil, "entries sync against a fault-free publisher succeeds")
+	if withHook {
+		verif_Assert(c01sameLog(v.log, want), "entries sync reports the blocks from the given entry up to the applicable depth limit")
+	}
+	verif_Assert(len(v.drain()) == 0 && v.latest() == cid.Undef, "entries syncs emit no notification and record no latest sync")
+	for _, r := range v.sy.reqs {
+		p := v.sy.pos(r.start)
+		verif_Assert(p >= start && p < start+len(want), "every request starts inside the requested segment")
+	}
+}
